@@ -138,6 +138,9 @@ def randrange(start, stop=None, step=1):
         stop = stop.concrete()
     if stop <= start:
         raise ValueError("empty range for randrange()")
+    hook = getattr(ctx, "draw_hook", None)
+    if hook is not None:
+        hook("randrange", (start, stop))  # may end the path (PathAbort) when the caller's state provably repeats
     k, stem = _call(ctx, "randrange")
     ctx.draw(1)
     v = ctx.int(f"{stem}.v", start, stop - 1) if stop - start > 1 else start
